@@ -109,6 +109,7 @@ class Interp:
         self.oracle = Oracle()
         self.trace = Trace()
         self.join_depth = 0
+        self.open_lids = []
         self.try_stack: list[list[str]] = []  # names catchable by enclosing handlers (oracle mode)
         self.call_stack: list = []
         self.site_stack: list = []  # call sites (line, col) leading to the current activation
@@ -126,6 +127,7 @@ class Interp:
             self.oracle = Oracle(prefix)
             self.trace = Trace()
             self.join_depth = 0
+            self.open_lids = []
             self.try_stack = []
             self.call_stack = []
             try:
@@ -838,6 +840,7 @@ class Interp:
         lid = f"L{self.loop_ids}"
         symmetric = bool(info.get("symmetric"))
         self.join_depth += 1
+        self.open_lids.append(lid)
         self.ops.loop_enter(lid, st, info, env)
         outs: dict = {}
         head = env  # state at loop head (joined over iterations)
@@ -887,6 +890,7 @@ class Interp:
                 self.event("no_fixpoint", st)
         finally:
             self.join_depth -= 1
+            self.open_lids.pop()
         if exit_env is not None:
             self.join_env_into(head, exit_env)
         self.ops.loop_exit(head, lid, info, st)
@@ -1004,7 +1008,7 @@ class Interp:
 
     def _display(self, n, env, kind):
         try:
-            return ListV(items=tuple(self._elts(n.elts, env)), kind=kind)
+            return ListV(items=tuple(self._elts(n.elts, env)), kind=kind, born=tuple(self.open_lids))
         except _AbstractDisplay:
             out = ListV(items=(), kind=kind)
             for e in n.elts:
@@ -1212,6 +1216,7 @@ class Interp:
             self.loop_ids += 1
             lid = f"L{self.loop_ids}"
             self.join_depth += 1
+            self.open_lids.append(lid)
             self.ops.comp_enter(info)
             try:
                 ev = self.ops.loop_elem(elem, lid, info)
@@ -1223,6 +1228,7 @@ class Interp:
                 r = self._comp_rec(n, gens, gi + 1, env, kind)
             finally:
                 self.join_depth -= 1
+                self.open_lids.pop()
                 self.ops.comp_exit(info)
             res = self.ops.comp_abstract(r, kind, info, lid, filtered, n, env)
         if gi == 0:
